@@ -455,7 +455,10 @@ def _shapes(tier: str, seed: int) -> List[dict]:
     deep = list(gen.expr_shapes(2, [idns, ("Str", NEW), gen.path_shape(1)], named=True, sym_ops=False))
     exprs += gen.sample(deep, 40 if tier == "quick" else 500, seed)
     # multi-argument calls / named params / lambda with None body explicitly
-    exprs += [("Call", ("Id", "f", ("ns",)), [("NamedParam", ("Id", NEW, ()), ("Str", NEW)),
+    exprs += [("Compare", "In", ("Id", NEW, ()), ("List", [("Int", "1"), ("Null",), ("Str", NEW), ("Null",)])),
+              ("Compare", "In", ("Null",), ("List", [("Null",)])),
+              ("Compare", "Eq", ("Call", ("Id", "concat", ()), [("List", [("Null",), ("Int", "1")]), ("List", [])]), ("List", [("Null",)])),
+              ("Call", ("Id", "f", ("ns",)), [("NamedParam", ("Id", NEW, ()), ("Str", NEW)),
                                               ("NamedParam", ("Id", NEW, ()), ("Int", "2"))]),
               ("Call", ("Id", "substring", ()), [("Id", NEW, ()), ("Int", "1"), ("Int", "2")]),
               ("Call", ("Id", "now", ()), []),
@@ -463,7 +466,8 @@ def _shapes(tier: str, seed: int) -> List[dict]:
               ("UnaryOp", "Not", ("CLambda", gen.path_shape(0), "All",
                                   ("Lambda", ("Id", NEW, ()), ("CLambda", gen.path_shape(1), "Any", None))))]
     if tier == "quick":
-        exprs = exprs[:24] + gen.sample(exprs[24:], 56, seed)
+        fixed = exprs[-8:]          # the explicit forms above always run
+        exprs = exprs[:24] + gen.sample(exprs[24:-8], 56, seed) + fixed
     out, seen = [], set()
     for e in exprs:
         sh, hs = gen.renumber(e)
